@@ -1999,8 +1999,19 @@ dt_dcmp(struct dt_d_s d1, struct dt_d_s d2)
 	case DT_DUNK:
 	default:
 		return -2;
+	case DT_JDN:
+		/* floats, their bit patterns don't order */
+		if (d1.jdn == d2.jdn) {
+			return 0;
+		} else if (d1.jdn < d2.jdn) {
+			return -1;
+		} else /*if (d1.jdn > d2.jdn)*/ {
+			return 1;
+		}
 	case DT_YMD:
 	case DT_DAISY:
+	case DT_LDN:
+	case DT_MDN:
 	case DT_BIZDA:
 	case DT_YWD:
 	case DT_YD:
